@@ -13,7 +13,7 @@ RULE = ("Hypothesis: programs of 1-8 editing commands (operator x motion incl. d
         "text family incl. empty buffers and lines; observed: written file, cursor marker, and a dump of every register touched (put at the end of "
         "the buffer); compared with models/vim.py.  Non-trivial = program has a multi-line region, an inclusive motion or a count overrunning the "
         "line, and a register later revealed by a put; distinct by SHA-1 of the case")
-ASSUMPTIONS = ["autoindent off (:se noai) so that insert-mode text is what was typed", "left-to-right text", "calibrations of the reference: any line-wise or "
+ASSUMPTIONS = ["autoindent on or off per case; the reference models the line editor incl. ^H ^W ^U ^V ^T ^D and autoindent carry-over", "left-to-right text", "calibrations of the reference: any line-wise or "
                "multi-line store into the unnamed or a letter register rotates 1-9; a named register does not also set the unnamed one; o/O/p/P on an empty "
                "buffer first create an empty line; upper-case names are write-only (append)"]
 
@@ -21,7 +21,8 @@ ATOMS = ["foo", "bar", "a", "x1", " ", " ", "  ", "\t", ".", "(", ")", "-", "é"
 line = st.one_of(st.lists(st.sampled_from(ATOMS), max_size=8).map("".join), st.just(""), st.just(" x"))
 count = st.sampled_from([0, 0, 0, 0, 1, 2, 3, 4, 9])
 MOTS = ["h", "l", "j", "k", "0", "^", "$", "w", "b", "e", "W", "B", "E", "G", "+", "-", "_", "{", "}", " ", "\x7f", "%", ";", ",", "H", "L", "|"]
-TYPED = ["foo", "é日", "a b", "x\ny", "", " ", "bar\x08z", "q w\x17e", "abc\x15d", "\x16\tz", "1\n2\n3", "  in", "\n"]
+TYPED = ["foo", "é日", "a b", "x\ny", "", " ", "bar\x08z", "q w\x17e", "abc\x15d", "\x16\tz", "1\n2\n3", "  in", "\n", "\x14x\ny", "a\n\x04b", "  p\nq\n\x04r",
+         "\x14\x14k\n\x04l", " \n x", "\x04z", "\tt\n\n u"]
 REGW = ["", "", "", "a", "a", "b", "A", "B", "c", "1", "3"]
 REGR = ["", "", "", "a", "a", "b", "b", "c", "1", "2", "3"]
 
@@ -80,7 +81,7 @@ def command(draw):
 @st.composite
 def case(draw):
     return {"lines": draw(st.lists(line, max_size=8)), "row": draw(st.integers(0, 7)), "off": draw(st.integers(0, 8)),
-            "cmds": draw(st.lists(command(), min_size=1, max_size=8))}
+            "cmds": draw(st.lists(command(), min_size=1, max_size=8)), "ai": draw(st.booleans())}
 
 
 def strategy(tier):
@@ -95,7 +96,7 @@ def regpfx(r):
 
 
 def keys_of(c):
-    ks = [":se noai\n"]
+    ks = [":se ai\n" if c.get("ai") else ":se noai\n"]
     if c["lines"]:
         ks.append("%dG0" % (min(c["row"], len(c["lines"]) - 1) + 1))
         if c["off"]:
@@ -138,6 +139,7 @@ def keys_of(c):
 
 def simulate(c, t):
     v = vim.ViEd(c["lines"], 24, t)
+    v.ai = bool(c.get("ai"))
     info = {"multiline": False, "inclusive": False, "revealed": False, "touched": set()}
     if c["lines"]:
         v.move("G", min(c["row"], len(c["lines"]) - 1) + 1)
@@ -213,7 +215,7 @@ def run_case(env, c):
     dump = "".join("Go=%s=\x1b%sp" % (r or "un", regpfx(r)) for r in DUMPREGS)
     d = env.fresh()
     runner.write_file(d, "f", gen.to_bytes(c["lines"]))
-    stdin = (keys + "\x1b\x1bi" + viutil.MARK + "\x1b" + dump + "\x1b:%w! out\n").encode("utf-8") + runner.VI_TRAILER
+    stdin = (keys + "\x1b\x1b:se noai\ni" + viutil.MARK + "\x1b" + dump + "\x1b:%w! out\n").encode("utf-8") + runner.VI_TRAILER
     r = runner.run_editor(env.paths["vi"], ["-v", "f"], stdin, d, rows=24, cols=100, want_stats=False)
     nt = info["multiline"] and info["inclusive"] and info["revealed"]
     cl = [k for k in ("multiline", "inclusive", "revealed") if info[k]]
@@ -225,6 +227,7 @@ def run_case(env, c):
     if out is None:
         return Outcome(False, nt, cl, detail={"why": "no output", "keys": keys})
     # expected: model text with the marker, then the dump executed on the model
+    v.ai = False
     v.insert("i", viutil.MARK)
     for reg in DUMPREGS:
         v.move("G")
